@@ -194,3 +194,34 @@ def combine(*gens):
             stats['distinct'] = stats.get('distinct', 0) + st.get('distinct', 0)
         return files, stats
     return run
+
+
+def gen_conn(tier, seed, work):
+    """random walks of the connection life-cycle model (Conn.tla, generator configuration, tlc -simulate):
+    conversations of up to 40 frames in both directions over 3 channels"""
+    import subprocess
+    num = 40 if tier == 'quick' else 600
+    res = tlc.run_tlc(os.path.join(tlc.SPEC, 'mc', 'MC_Conn.tla'), os.path.join(tlc.SPEC, 'mc', 'MC_Conn_gen.cfg'),
+                      workers=1, xmx='4g', xss='64m', extra=('-simulate', 'num=%d' % num, '-depth', '41', '-seed', str(seed % 2 ** 31)))
+    items = parse_s2c(res['out'])
+    if not items or 'Error' in res['out'].split('S2C')[0]:
+        raise tlc.MachineryError('S2C generator MC_Conn_gen failed\n%s' % res['out'][-3000:])
+    # (TLC evaluates the emitting invariant on every candidate successor: near-duplicates differing in the last frame)
+    seen, uniq = set(), []
+    for it in items:
+        k = json.dumps(it['conv'][:-1])
+        if k not in seen:
+            seen.add(k)
+            uniq.append(it)
+    import random
+    random.Random(seed).shuffle(uniq)
+    uniq = uniq[:64 if tier == 'quick' else 1200]
+    path = os.path.join(work, 'conversations.ndjson')
+    with open(path, 'w') as f:
+        for it in uniq:
+            f.write(json.dumps(it) + '\n')
+    import re
+    m = re.search(r'The number of states generated: (\d+)', res['out'])
+    n = int(m.group(1)) if m else 0
+    return {'conversations': path}, {'module': 'MC_Conn', 'cfg': 'MC_Conn_gen (simulate num=%d depth=41)' % num, 'states': n, 'distinct': n,
+                                     'conversations': len(uniq), 'frames': sum(len(u['conv']) for u in uniq), 'wall_s': round(res['wall'], 2)}
